@@ -35,6 +35,7 @@ class C04(Prop):
         from nxslib.proto.parse import Parser
         from nxslib.proto.iframe import DParseFrame, EParseId
         self.Parser, self.DParseFrame, self.EParseId = Parser, DParseFrame, EParseId
+        self._parsers = {}     # one long-lived Parser per user-type configuration (a client keeps its parser across devices)
 
     def cases(self, rng, tier):
         T = tier == "thorough"
@@ -76,7 +77,9 @@ class C04(Prop):
         layout, user, payload = parse_layout(t[2]), parse_user(t[3]), unhex(t[4])
         try:
             dev = sg.real_device(layout)
-            p = self.Parser(user_types=sg.real_user(user))
+            p = self._parsers.get(t[3])
+            if p is None:
+                p = self._parsers[t[3]] = self.Parser(user_types=sg.real_user(user))
             ds = p.frame_stream_decode(self.DParseFrame(self.EParseId.STREAM, payload), dev)
         except Exception as e:
             return "err " + exc_name(e)
